@@ -4,7 +4,7 @@ import treegen
 
 PID = "C11"
 TARGETS = ["Run.vo", "Resp_proofs.vo"]
-IMPORTS = "From VF Require Import Base Show Gen_Errors Lexer Response Tree Scripted Run."
+IMPORTS = "From VF Require Import Base Show Gen_Errors Lexer Response Conv Tree Scripted Run."
 ALLOWED_AXIOMS = []
 PROFILES = ["debug", "release"]
 RULE = ("each generated message (1..4 units, queries writing 1..4 data elements of random types, with/without headers; handlers "
